@@ -250,3 +250,50 @@ def unit_file_onbatch(ctx):
     except Exception as e:
         _cfg_fail(ctx, "E2cfg_file_onbatch", "E2-cfg file unit internal error: %s\n%s" % (e, traceback.format_exc()[-1500:]))
     _log(ctx, "file on_batch unit done in %.0fs" % (time.time() - t0))
+
+
+# ---------------------------------------------------------------- E2-cfg: OTLP dispatch (C14)
+
+def unit_otlp_dispatch(ctx):
+    from mir2smt import otlp_cfg_ob as oc, cfg_driver
+    t0 = time.time()
+    try:
+        u = _Unit(ctx, "otlp-cfg")
+        mir = u.mir("emitter/otlp", True)
+        P = Program(u.tree)
+        P.add_dump(mir, "emit_otlp")
+        A = oc.build(P)
+        _log(ctx, "OtlpInner::emit abstraction: %s; %d SMT lines" % (A.stats(), len(A.S.lines)))
+        cfg_driver.decide_cfg(ctx, oc.obligations(P, A), u.dir, jobs=_jobs())
+    except (engine.EngineError, Unsupported, Inconclusive) as e:
+        _cfg_fail(ctx, "E2_dispatch_exactly_one_first_configured_accepting", "E2-cfg otlp unit: %s" % e)
+    except Exception as e:
+        _cfg_fail(ctx, "E2_dispatch_exactly_one_first_configured_accepting",
+                  "E2-cfg otlp unit internal error: %s\n%s" % (e, traceback.format_exc()[-1500:]))
+    _log(ctx, "otlp dispatch unit done in %.0fs" % (time.time() - t0))
+
+
+# ---------------------------------------------------------------- E2-cfg: AmbientSlot (C20)
+
+def unit_slot_init(ctx):
+    from mir2smt import slot_cfg_ob as sc, cfg_driver
+    t0 = time.time()
+    try:
+        u = _Unit(ctx, "slot-cfg")
+        text, secs = engine.dump_mir(u.tree, "core", os.path.join(u.dir, "t-mir"), default_features=False,
+                                     log=os.path.join(u.dir, "mir-core.log"), features=["std"])
+        _log(ctx, "MIR of core (feature std) dumped in %.0fs (%d lines)" % (secs, text.count("\n")))
+        P = Program(u.tree)
+        P.add_dump(text, "emit_core")
+        abs_ = sc.build(P)
+        for m, a in abs_.items():
+            _log(ctx, "AmbientSlot::%s abstraction: %s" % (m, a.stats()))
+        obs = sc.structural(P, abs_)
+        n = 3 if ctx.tier == "quick" else 3
+        obs.append(sc.interleaving_obligation(n, n))
+        cfg_driver.decide_cfg(ctx, obs, u.dir, jobs=_jobs())
+    except (engine.EngineError, Unsupported, Inconclusive) as e:
+        _cfg_fail(ctx, "E2cfg_slot_init", "E2-cfg slot unit: %s" % e)
+    except Exception as e:
+        _cfg_fail(ctx, "E2cfg_slot_init", "E2-cfg slot unit internal error: %s\n%s" % (e, traceback.format_exc()[-1500:]))
+    _log(ctx, "slot init unit done in %.0fs" % (time.time() - t0))
